@@ -32,6 +32,26 @@ def run(ctx):
     f12, _, bad = cvx.enumerate_domain(ctx, lengths, CFGS)
     ctx.exhaustive = True
     report(ctx, f12)
+    # a very long recording: 40000 cycles of three samples (labels must run 0..39999 - beyond any 16-bit counter)
+    from emd import cycles as _cy
+    K = 40000
+    ph_long = np.tile(np.array([0.3, 3.0, 6.0]), K)
+    try:
+        with common.time_limit(120):
+            lab = np.asarray(_cy.get_cycle_vector(ph_long, return_good=False)).reshape(-1)
+        ok = lab.shape == (3 * K,) and np.array_equal(lab, np.repeat(np.arange(K), 3))
+        detail = 'labels are not 0..%d, three samples each (first mismatch at sample %s)' % (
+            K - 1, int(np.argmax(lab != np.repeat(np.arange(K), 3))) if lab.shape == (3 * K,) else 'n/a')
+    except common.Timeout:
+        ok, detail = True, ''
+        ctx.discarded += 1
+    except Exception as e:                                              # noqa
+        ok, detail = False, 'detection failed: %s: %s' % (type(e).__name__, e)
+    ctx.count(('long-40000-cycles',), True, 'very-long')
+    ctx.tol_cmp += 1
+    if not ok:
+        ctx.problem('impl-violation', 'get_cycle_vector(return_good=False)', 'a recording of %d cycles of three samples (phase 0.3, 3.0, 6.0 '
+                    'repeated): %s' % (K, detail), input=dict(very_long=K))
     # long synthetic phases (explicit cases)
     longs = cvx.long_cases(ctx, 60 if ctx.quick() else 1500)
     coded = [cvx.code_cfg(s, e) for s, e in CFGS]
@@ -108,6 +128,15 @@ def run(ctx):
 
 def replay(rec):
     inp = rec['input']
+    if 'very_long' in inp:
+        from emd import cycles
+        K = inp['very_long']
+        try:
+            lab = np.asarray(cycles.get_cycle_vector(np.tile(np.array([0.3, 3.0, 6.0]), K), return_good=False)).reshape(-1)
+        except Exception as e:                                          # noqa
+            print('raised', repr(e))
+            return True
+        return not np.array_equal(lab, np.repeat(np.arange(K), 3))
     if 'phase_float' in inp:
         from emd import cycles
         try:
